@@ -109,6 +109,8 @@ structure Snap where
   rh1 : String
   rr0 : String := ""   -- Manager.SectorRoots only
   rr1 : String := ""
+  pool0 : Nat := 0     -- transactions in the host's pool
+  pool1 : Nat := 0
   bal0 : Nat
   charged : Nat
   gained : Nat
@@ -118,7 +120,8 @@ def getSnap (obs : List (String × String)) : Option Snap :=
         getStr obs "rh0", getStr obs "rh1", getNat obs "bal0", getNat obs "charged", getNat obs "gained" with
   | some a, some b, some c, some d, some e, some f, some g, some h, some i, some j, some k =>
       some { rv0 := a, rv1 := b, fs0 := c, fs1 := d, nr0 := e, nr1 := f, rh0 := g, rh1 := h, bal0 := i, charged := j, gained := k,
-             rr0 := (getStr obs "rr0").getD "", rr1 := (getStr obs "rr1").getD "" }
+             rr0 := (getStr obs "rr0").getD "", rr1 := (getStr obs "rr1").getD "",
+             pool0 := (getNat obs "pool0").getD 0, pool1 := (getNat obs "pool1").getD 0 }
   | _, _, _, _, _, _, _, _, _, _, _ => none
 
 def crashVerdicts (op : String) (obs : List (String × String)) : List Verdict :=
@@ -213,7 +216,10 @@ def renewReqOf (kind : RenewKind) (args : List (String × String)) : Option Rene
     | "filesize" | "filesize1" | "root" | "revnum1" | "wend_small" | "wstart_small" => some { r with fcFieldsOk := false }
     | "wstart_huge" => some { r with hardforkOk := false }
     | "hugeext" => some { r with baseOk := false, fcFieldsOk := false }
-    | "wend_huge" | "payout_huge" | "payout_huge_both" | "payout_zero" | "burn" | "void_huge" | "addr" | "addr_missed" | "void"
+    | "wend_huge" =>
+      -- without file size there is no base cost, so every validator accepts the huge window; the store cannot hold it
+      if kind == .form2 || (getNat args "n").getD 0 == 0 then some { r with storable := false } else some { r with fcRestOk := false }
+    | "payout_huge" | "payout_huge_both" | "payout_zero" | "burn" | "void_huge" | "addr" | "addr_missed" | "void"
     | "unlockhash" => some { r with fcRestOk := false }
     | "outs0" => some { r with fcValid := 0, fcMissed := 0 }
     | "valid1" => some { r with fcValid := 1 }
@@ -444,17 +450,20 @@ def step (fx : Fixes) (d : DState) (l : Line) : DState × List Verdict :=
       let s0 : HostState := { rev := 0, roots := List.range ((getNat l.args "n").getD 0), balance := 0 }
       let (o, _) := renew fx kind s0 r
       let d := match o with | .panic _ => { d with modelPanics := d.modelPanics + 1 } | _ => d
+      let grew : Bool := match sn? with | some sn => decide (sn.pool1 > sn.pool0) | none => false
       let vs : List Verdict :=
         match o, res with
         | .panic site, "crash" => cmp "site" site.name ((getStr l.obs "site").getD "?")
         | .accept, "accept" => []
-        | .reject, "reject" => []
+        | .reject, "reject" => if grew then [.mismatch "broadcast" "none" "pool grew"] else []
+        | .rejectBroadcast, "reject" => if grew then [] else [.mismatch "broadcast" "pool grows" "unchanged"]
         | o, r => [.mismatch "res" (reprStr o) r]
       let noop : List Verdict :=
         match sn?, res with
         | some sn, "reject" =>
           noopVerdicts sn false ++
-          (if sn.charged != 0 || sn.gained != 0 then [.monitor "reject_noop/balance_refused" s!"charged={sn.charged},gained={sn.gained}"] else [])
+          (if sn.charged != 0 || sn.gained != 0 then [.monitor "reject_noop/balance_refused" s!"charged={sn.charged},gained={sn.gained}"] else []) ++
+          (if sn.pool1 > sn.pool0 then [.monitor "reject_noop/broadcast" s!"the request was answered with an error but the transaction pool grew {sn.pool0}->{sn.pool1}"] else [])
         | some sn, "accept" =>
           -- a formation must not touch the existing contract
           if l.op == "form2" then noopVerdicts sn false else []
